@@ -312,7 +312,15 @@ def _wrun(chunk):
                 try:
                     local = bool(gen and gen.get("local_classes"))
                     g2 = {k: x for k, x in gen.items() if k != "local_classes"} if gen else gen
-                    mod = _W["scratch"].load(d["prog"], g2 or None, local=local)
+                    try:
+                        mod = _W["scratch"].load(d["prog"], g2 or None, local=local)
+                    except RuntimeError as ex:
+                        # the library refused to DEFINE the classes of a declaration of the language (e.g. building the prototype
+                        # of a reference raised): no packet of the declaration can be constructed at all
+                        obs = {"prog": d["prog"], "root": d["root"], "K": c["K"], "mod": c["mod"], "how": how,
+                               "ctor_error": "the class definition failed: " + str(ex)[-300:]}
+                        out.append({"clauses": ["ctor_error"], "obs": obs, "gen": gen, "d": c["d"], "how": how})
+                        continue
                     obs = observe_case(mod, d, c, how)
                     obs["generic_p"] = gen is not None and not gen.get("generate_for_pack", True)
                     obs["vec"] = True if gen is None else bool(gen.get("vectorize", True))
